@@ -3,3 +3,5 @@ import SnootyVerif.Properties.C06
 import SnootyVerif.Properties.C07
 import SnootyVerif.Properties.C15
 import SnootyVerif.Properties.C20
+import SnootyVerif.Properties.C19
+import SnootyVerif.Properties.C17
